@@ -124,7 +124,7 @@ func (rr *runResult) discharge(opts Options, keep func(o *vc.Obligation) bool) {
 	rr.Dir = dir
 	// idle Ps of a 16-P runtime slow down process creation in this VM by an order of magnitude
 	runtime.GOMAXPROCS(2)
-	timeout := 10 * time.Second
+	timeout := 20 * time.Second
 	thorough := opts.Tier == "thorough"
 	if thorough {
 		timeout = 60 * time.Second
